@@ -83,9 +83,9 @@ class Basic(ManagementHandler):
                                          ),
                                          payload=get_messages)
         if to_dict:
-            return response
+            return response or []
         messages = []
-        for message in response:
+        for message in response or []:
             body = message.get('body')
             if not body:
                 body = message.get('payload')
